@@ -22,6 +22,7 @@ func c09(r *core.Report) {
 	c09Boundary(r)
 	c09Backtrack(r)
 	c09Stable(r)
+	c09VarNames(r)
 }
 
 // methodConstAndFields: the http.Method* constants and the *Operation fields of PathItem mentioned in a node.
@@ -728,6 +729,72 @@ func c09Stable(r *core.Report) {
 					}
 				}
 			}
+		}
+	})
+}
+
+// c09VarNames: the node a template ends at carries the variable names of THAT template. Variable
+// nodes are shared by all templates that have a variable at the same position, whatever they call
+// it; names taken over from a node that another template created are that template's names.
+func c09VarNames(r *core.Report) {
+	p := r.Prog
+	info := p.Pkg("routers/legacy/pathpattern").TypesInfo
+	r.RunRule("C09.varnames", "path parameter names come from the template being registered: every value stored into a pattern-tree node's VariableNames (assignment or composite literal) in package pathpattern is a local list built, in the same function, only from pieces of the function's path argument — never a list read from another node", 1, func() {
+		n := 0
+		for _, d := range p.AllDecls("routers/legacy/pathpattern") {
+			if d.Body == nil {
+				continue
+			}
+			ff := core.NewFuncFacts(p, info, d)
+			check := func(pos token.Pos, rhs ast.Expr) {
+				n++
+				key := fmt.Sprintf("varnames:%s#%d", core.FuncName(d), n)
+				rs := ff.Roots(rhs, false)
+				fromNode := ""
+				for f := range rs.Fields {
+					if f.Name() == "VariableNames" {
+						fromNode = "the VariableNames of a node that is already in the tree"
+					}
+				}
+				fromPath := false
+				for o := range rs.Objs {
+					if isParamOf(d, info, o) {
+						if b, ok := o.Type().Underlying().(*types.Basic); ok && b.Info()&types.IsString != 0 {
+							fromPath = true
+						}
+					}
+				}
+				switch {
+				case fromNode != "":
+					r.Bad(key, p.Pos(pos), fmt.Sprintf("%s is built from %s: a variable node is shared by every template that has a variable at that position, so a template registered later inherits the names of the first one (`/customers/{accountId}/invoices` answers with customerId) and substituting the parameters into the template no longer reproduces the path", core.ExprStr(rhs), fromNode))
+				case fromPath || core.IsNil(info, rhs):
+					r.OK(key, p.Pos(pos), "names parsed from this template")
+				default:
+					r.Unknown(key, p.Pos(pos), "cannot tell where "+core.ExprStr(rhs)+" comes from")
+				}
+			}
+			ast.Inspect(d.Body, func(nd ast.Node) bool {
+				switch x := nd.(type) {
+				case *ast.AssignStmt:
+					for i, l := range x.Lhs {
+						if sel, ok := ast.Unparen(l).(*ast.SelectorExpr); ok && sel.Sel.Name == "VariableNames" && i < len(x.Rhs) {
+							check(x.Pos(), x.Rhs[i])
+						}
+					}
+				case *ast.CompositeLit:
+					for _, el := range x.Elts {
+						if kv, ok := el.(*ast.KeyValueExpr); ok {
+							if id, ok := kv.Key.(*ast.Ident); ok && id.Name == "VariableNames" {
+								check(kv.Pos(), kv.Value)
+							}
+						}
+					}
+				}
+				return true
+			})
+		}
+		if n == 0 {
+			core.Fail("no store into VariableNames found in pathpattern")
 		}
 	})
 }
